@@ -50,7 +50,12 @@ def oracle_axes(ck, m, J, col, row, x, tol=0.0, named=None):
     rng = ck.rng
     ylr = gen.int_tensor(rng, yl.shape) if tol == 0.0 else gen.float_tensor(ck.nprng, yl.shape)
     yhr = [gen.int_tensor(rng, h.shape) if tol == 0.0 else gen.float_tensor(ck.nprng, h.shape) for h in yh]
-    ishort = per_short_inv([h.shape[-2] for h in yhr], len(col[0]), m) or per_short_inv([h.shape[-1] for h in yhr], len(row[0]), m)
+    ishort = per_short_inv([h.shape[-2] for h in yh], len(col[0]), m) or per_short_inv([h.shape[-1] for h in yh], len(row[0]), m)
+    # a None level (where no un-padding is needed below it) must act like zeros, with the right filters per axis
+    if J >= 1 and rng.random() < 0.5:
+        k = J - 1 if (J == 1 or rng.random() < 0.5) else rng.randrange(J)
+        if k == J - 1 or (synlen(m, yh[k + 1].shape[-2], len(col[0])) == yh[k].shape[-2] and synlen(m, yh[k + 1].shape[-1], len(row[0])) == yh[k].shape[-1]):
+            yhr[k] = None
     try:
         ref = O.waverec2(ylr, yhr, wc, wr, m)
     except Exception:
@@ -85,14 +90,14 @@ def oracle(ck, extended):
         m = rng.choice(gen.MODES5); J = rng.randint(1, 3)
         col = tuple(gen.int_filter(rng, Lc) for _ in range(4)); row = tuple(gen.int_filter(rng, Lr) for _ in range(4))
         x = gen.int_tensor(rng, (rng.randint(1, 2), rng.randint(1, 2), gen.pick_len(rng, Lc, 18), gen.pick_len(rng, Lr, 18)))
-        oracle_axes(ck, m, J, col, row, x)
+        rt.guard(ck, oracle_axes, ck, m, J, col, row, x)
     names = ['db1', 'db2', 'db3', 'sym4', 'coif1', 'bior1.3', 'bior2.2', 'bior3.1', 'rbio2.4', 'db5', 'bior4.4', 'dmey'] if not q else ['db1', 'db2', 'db3', 'sym4', 'bior1.3', 'bior2.2']
     pairs = [(a, b) for a in names for b in names if a != b]
     for a, b in (rng.sample(pairs, 12) if q else pairs):
         wa, wb = pywt.Wavelet(a), pywt.Wavelet(b)
         col = tuple(np.array(v) for v in wa.filter_bank); row = tuple(np.array(v) for v in wb.filter_bank)
         x = gen.float_tensor(ck.nprng, (1, 1, rng.randint(max(4, wa.dec_len), 30), rng.randint(max(4, wb.dec_len), 30)))
-        oracle_axes(ck, rng.choice(gen.MODES5), rng.randint(1, 2), col, row, x, tol=1e-9, named='%s x %s' % (a, b))
+        rt.guard(ck, oracle_axes, ck, rng.choice(gen.MODES5), rng.randint(1, 2), col, row, x, tol=1e-9, named='%s x %s' % (a, b))
 
 
 def run(ck):
